@@ -38,55 +38,94 @@ def literal_escape_ok(body: str, quote='"'):
     return True, ""
 
 
-def verify_escape_loop(chk, gen, tier, TF):
-    """E5b: class-exhaustive run of the STRING escaping loop."""
+def _masked_shape(text):
+    """ast dump of generated code with every constant masked; None when the
+    text does not parse (then nothing can execute - C02's business)."""
+    import warnings  # noqa: PLC0415
+    try:
+        with warnings.catch_warnings():
+            warnings.simplefilter("ignore")
+            tree = ast.parse(text)
+    except (SyntaxError, ValueError):
+        return None
+    class Mask(ast.NodeTransformer):
+        def visit_Constant(self, n):
+            return ast.Constant(value=0)
+
+        def visit_UnaryOp(self, n):
+            # a signed number literal is still a number constant
+            if isinstance(n.op, (ast.USub, ast.UAdd)) and isinstance(
+                    n.operand, ast.Constant) and isinstance(
+                    n.operand.value, (int, float)):
+                return ast.Constant(value=0)
+            return self.generic_visit(n)
+    return ast.dump(Mask().visit(tree))
+
+
+FREE_TEXT_KINDS = ("STRING", "COMPRESSED_STRING", "COMPRESSED_NUMBER",
+                   "CHARACTER", "CODEPAGE_NUMBER")
+
+
+def verify_token_arms(chk, gen, tier, TF):
+    """E5b: for every free-text token kind the *shape* of the emitted code
+    (its AST with constants masked) is the same for every payload over the
+    class alphabet - program text can only have landed inside constants."""
     fn = gen.repo.mod("transpile").function("transpile_token")
     consts = set()
-    for n in ast.walk(fn):
-        if isinstance(n, ast.For):
-            for c in ast.walk(n):
-                if isinstance(c, ast.Compare):
-                    for k in c.comparators:
-                        if isinstance(k, ast.Constant) and isinstance(
-                                k.value, str):
-                            consts.add(k.value)
-    sigma = sorted(consts | set("\\`\"'\n\r\0a)#{%\t;:[^ ") | {"é", "\u2028"})
+    for n in ast.walk(gen.repo.mod("transpile").tree):
+        if isinstance(n, ast.Compare):
+            for k in n.comparators:
+                if isinstance(k, ast.Constant) and isinstance(k.value, str) \
+                        and len(k.value) == 1:
+                    consts.add(k.value)
+    sigma = sorted(consts | set("\\`\"'\n\r\0a)(#{%\t;:[^ +,") | {"é", "\u2028"})
     maxlen = 3 if tier == "thorough" else 2
-    n = 0
-    ok_all = True
-    why_first = ""
-    prefix, suffix = 'stack.append("', '")\n'
-    for ln in range(maxlen + 1):
-        for tup in itertools.product(sigma, repeat=ln):
-            s = "".join(tup)
-            n += 1
+    out = {}
+    total = 0
+    for kind in FREE_TEXT_KINDS:
+        ok, why = True, ""
+        lens = range(0, maxlen + 1)
+        if kind in ("CHARACTER", "CODEPAGE_NUMBER"):
+            lens = range(1, 2)
+        for dc in ((False, True) if kind == "STRING" else (True,)):
             try:
-                text = gen.transpile_token(gen.token("STRING", s), 0,
-                                           dict_compress=False)
+                ref = _masked_shape(gen.transpile_token(
+                    gen.token(kind, "a"), 0, dict_compress=dc))
             except GeneratorRaised as exc:
-                ok_all = False
-                why_first = why_first or f"raised {exc} on {s!r}"
+                ok, why = False, f"raised {exc} on 'a'"
                 continue
-            if not (text.startswith(prefix) and text.endswith(suffix)):
-                # template text changed: locate the literal generically
-                i = text.find('"')
-                j = text.rfind('"')
-                body = text[i + 1:j] if 0 <= i < j else text
-            else:
-                body = text[len(prefix):-len(suffix)]
-            ok, why = literal_escape_ok(body)
-            chk.ob("C18.escape-loop-transducer", "transpile_token/STRING loop",
-                   ok, f"value {s!r} is emitted as {text.strip()!r}: {why}",
-                   TF, witness=repr(s),
-                   sample={"value": s, "emitted": text.strip()}
-                   if ln == 2 and n % 97 == 0 else None)
-            if not ok:
-                ok_all = False
-                why_first = why_first or f"{s!r}: {why}"
-    chk.unit("escape-loop inputs (class alphabet, len<=%d)" % maxlen, n)
-    chk.unit("escape-loop class alphabet", "".join(
+            small = ['"', "'", "\\", "+", ")", "(", "a", "\n", ","]
+            for ln in list(lens) + ([3] if maxlen == 2 and len(lens) > 2
+                                    else []):
+                for tup in itertools.product(
+                        small if ln == 3 and maxlen == 2 else sigma,
+                        repeat=ln):
+                    s = "".join(tup)
+                    total += 1
+                    try:
+                        text = gen.transpile_token(gen.token(kind, s), 0,
+                                                   dict_compress=dc)
+                    except GeneratorRaised:
+                        continue  # no code returned
+                    shape = _masked_shape(text)
+                    good = shape is None or shape == ref
+                    chk.ob("C18.emitted-shape-independent-of-payload",
+                           f"transpile_token/{kind}", good,
+                           f"{kind} payload {s!r} is emitted as "
+                           f"{text.strip()!r}, whose syntax tree differs from "
+                           "the one for a plain payload: program text has "
+                           "left the constant", TF, witness=repr(s),
+                           sample={"kind": kind, "payload": s,
+                                   "emitted": text.strip()}
+                           if ln == 2 and total % 211 == 0 else None)
+                    if not good and ok:
+                        ok, why = False, (f"payload {s!r} changes the shape "
+                                          "of the emitted code")
+        out[kind] = (ok, why)
+    chk.unit("payloads checked for shape independence", total)
+    chk.unit("payload class alphabet", "".join(
         c if c.isprintable() else repr(c)[1:-1] for c in sigma))
-    return ok_all, why_first
+    return out
 
 
 def returns_int(mod, fname, seen=()):
@@ -230,7 +269,7 @@ def check(chk, repo, tier):
     chk.trusted_base += ["CPython ast", "re._parser (regex class contents)",
                          "vystatic.pe interpreter subset"]
 
-    esc_ok, esc_why = verify_escape_loop(chk, gen, tier, TF)
+    shape_ok = verify_token_arms(chk, gen, tier, TF)
     arity_ok = lambda_arity_sites(chk, repo)
     unc = uncompress_summary(repo)
     chk.unit("uncompress() return classes", unc)
@@ -246,7 +285,7 @@ def check(chk, repo, tier):
     def fold(node):
         return it.eval(node, ModuleEnv(ptr), ptr)
 
-    facts = {"esc_loop_ok": esc_ok, "esc_loop_why": esc_why,
+    facts = {"shape_ok": shape_ok,
              "arity_is_int": arity_ok and not bad_ar,
              "uncompress_returns": unc}
     ti = TaintInterp(tmod, fold, langs, facts)
@@ -254,9 +293,6 @@ def check(chk, repo, tier):
     ti.run_function(tmod.function("transpile_structure"),
                     {"struct": Obj("struct")})
     ti.run_function(tmod.function("transpile_lambda"), {"lam": Obj("lam")})
-    if not facts.get("esc_loop_seen"):
-        raise AnalysisError(
-            "anchor vanished: the character-escaping loop of the STRING arm")
     n_slots = 0
     n_ret = 0
     by_class = {}
@@ -295,14 +331,16 @@ def check(chk, repo, tier):
         "transpile_lambda in a template domain tracks each program-derived "
         "value with its sanitiser class (int conversion, !r, negated-class "
         "re.sub with its kept character set read from the regex AST, token "
-        "value language from the lexer, the escaping loop verified as a "
-        "transducer over a class alphabet) and compares it with the python "
+        "value language from the lexer; for free-text token kinds the shape "
+        "of the emitted code - its syntax tree with constants masked - is "
+        "shown independent of the payload over a class alphabet) and "
+        "compares it with the python "
         "context given by the surrounding constant template text. Element "
         "and modifier code comes only from table lookups (fixed vocabulary).")
     chk.assumptions += [
         "the three transpile_* functions are the only producers of generated "
         "code (transpile_ast/transpile_single only join their results)",
-        "escaping loop: behaviour on strings follows from behaviour on "
-        "characters and backslash pairs (the loop keeps no other state; "
-        "checked structurally)",
+        "free-text arms: behaviour on strings follows from behaviour on "
+        "class characters and adjacent pairs (escaping is character-wise up "
+        "to backslash pairs)",
     ]
